@@ -86,6 +86,8 @@ inductive Op where
   | evolve (i : Nat) (changes : List (Nat × Nat))
   /-- `x_i.<field f> = v` -/
   | set (i : Nat) (f : Nat) (v : Nat)
+  /-- `attr.assoc(x_i, **changes)`: shallow copy, fields overwritten, a carried-over cached hash cleared -/
+  | assoc (i : Nat) (changes : List (Nat × Nat))
   deriving DecidableEq, Repr, FromJson, ToJson, Inhabited
 
 structure Case where
@@ -542,6 +544,15 @@ def applyChanges (vals : List Nat) : List (Nat × Nat) → List Nat
   | [] => vals
   | (f, v) :: rest => applyChanges (vals.set f v) rest
 
+/-- `attr.assoc` (src/attr/_funcs.py): `copy.copy`, then `object.__setattr__` for every change, then — if
+    `getattr(new, '_attrs_cached_hash', None) is not None` — the cache is set back to None -/
+def assocInst (L : Layout) (x : Inst) (ch : List (Nat × Nat)) : Inst :=
+  let y := copyInst L false x
+  let y' : Inst := { y with vals := applyChanges y.vals ch }
+  match readCell L y' with
+  | .full _ => writeCell L y' .empty
+  | _ => y'
+
 def step (c : Case) (L : Layout) (insts : List Inst) : Op → Res × List Inst
   | .hash i alt => hashOp c L insts i alt
   | .copy i =>
@@ -559,6 +570,10 @@ def step (c : Case) (L : Layout) (insts : List Inst) : Op → Res × List Inst
   | .evolve i ch =>
     match insts[i]? with
     | some x => (Res.plain .ok, insts ++ [newInst L (applyChanges x.vals ch)])
+    | Option.none => (Res.plain .other, insts)
+  | .assoc i ch =>
+    match insts[i]? with
+    | some x => (Res.plain .ok, insts ++ [assocInst L x ch])
     | Option.none => (Res.plain .other, insts)
   | .set i f v =>
     match insts[i]? with
